@@ -1,6 +1,7 @@
 #!/usr/bin/env python3
 import json, sys
 pid = sys.argv[1]
+avoid = open(sys.argv[2]).read().strip() if len(sys.argv) > 2 else ''
 p = [json.loads(l) for l in open('/verif/properties.jsonl') if json.loads(l)['id'] == pid][0]
 print(f"""You are helping to test a verification effort by seeding realistic bugs into a Go code base (TarsCloud/TarsGo, a Go RPC framework for the Tars protocol).
 
@@ -19,13 +20,14 @@ Your task: produce TWO different, independent changes (mutations) to the Go sour
   (c) still passes the existing test suite unchanged: run `cd /tmp/seed/{pid} && go test -mod=mod -vet=off -count=1 ./tars/...` (one known pre-existing failure, TestKetamaHashAlg_Hash/2.2.2.2 in tars/selector/consistenthash, is expected and may be ignored) and also `cd /tmp/seed/{pid}/tars/tools/tars2go && go build ./...` if you touch the tars2go tool,
   (d) is SUBTLE: it must need something specific to manifest — a particular boundary value or unusual input, a particular interleaving, a fault at a particular point, a multi-step sequence of operations, or two cooperating sites that each look fine alone. It must NOT be something that ordinary use or the most basic smoke test would expose at once (e.g. do not break every call or every encode). Think of realistic mistakes a developer could make in a refactoring: shifted boundary (< vs <=), dropped or reordered step, wrong width/sign, swapped field, changed constant, removed guard, missing cleanup on one path.
 The two mutations should use different mechanisms / touch different code sites.
+{('Earlier rounds already produced the following mutations; yours must be DIFFERENT from these in mechanism and code site (prefer other functions / files among the relevant files, other kinds of mistake):' + chr(10) + avoid + chr(10)) if avoid else ''}
 
 For each mutation k in {{1,2}} write into /tmp/seed-out/{pid}/m<k>/ :
   - patch.diff : output of `git diff` in the worktree containing ONLY that mutation (non-test source changes only). Make sure the patch applies cleanly with `git apply` to a clean checkout of the same commit.
   - a demonstration: either a Go test file (say where it must be placed, e.g. demo_test.go in package X) or a small standalone Go program (own directory with go.mod using `replace github.com/TarsCloud/TarsGo => <path of repo>`; copy go.sum from the repo root) that FAILS (non-zero exit / failing test) with the mutation applied and PASSES on the unmodified code. You must actually run it both ways and confirm. The demo must only use what exists in the unmodified repository (it may be an in-package _test.go file to reach unexported identifiers).
   - meta.json : {{"property": "{pid}", "summary": "...what the change is...", "needs_to_manifest": "...the specific input/schedule/sequence needed...", "demo": "...how to run the demo (exact commands, where files go)...", "ran": "...what you ran and what you observed, both with and without the mutation...", "files_touched": [...]}}
 
-Work on one mutation at a time: apply it, verify (b) (c), write and verify the demo with and without it (use `git stash` or `git checkout -- .` to go back to the clean tree; keep demo files out of patch.diff), save the outputs, then restore the worktree to clean (`git checkout -- . && git clean -fd`) before starting the next one.
+Work on one mutation at a time: apply it, verify (b) (c), write and verify the demo with and without it (go back to the clean tree with `git diff > /tmp/seed-out/{pid}/tmp.diff; git checkout -- .` and re-apply with `git apply`; NEVER use `git stash`: the stash is shared between worktrees and other people's changes would be popped into yours; keep demo files out of patch.diff), save the outputs, then restore the worktree to clean (`git checkout -- . && git clean -fd`) before starting the next one.
 
 Environment: no network. Before any go command run: export GOFLAGS=-mod=mod GOPROXY=off GOSUMDB=off GOTOOLCHAIN=local . Go is 1.23. The framework (package tars) reads os.Args for `-config`, so prefer tests inside the leaf packages or standalone programs. Keep everything small and deterministic where possible; if the bug needs a specific interleaving, make the demo force it or loop until it shows (bounded time, < 60 s).
 
